@@ -3,6 +3,7 @@ package rules
 import (
 	"go/ast"
 	"go/token"
+	"go/types"
 
 	"golang.org/x/tools/go/cfg"
 	"golang.org/x/tools/go/packages"
@@ -17,6 +18,8 @@ type RangeRemoval struct {
 	Assign    *ast.AssignStmt
 	X         string
 	Continues bool // the loop may run another iteration after the removal
+	Via       *ast.CallExpr // removal happens inside this callee (interprocedural)
+	Stmt      ast.Stmt      // the statement containing Via
 }
 
 // shrinkOf reports whether rhs shrinks/reslices the slice named x.
@@ -57,6 +60,18 @@ func (c *Ctx) FindRangeRemovals(filter func(string) bool) []*RangeRemoval {
 				ast.Inspect(s.Body, visit)
 				stack = stack[:len(stack)-1]
 				return false
+			case *ast.ExprStmt:
+				if call, ok := s.X.(*ast.CallExpr); ok && len(stack) > 0 {
+					if callee := Callee(pk.TypesInfo, call); callee != nil {
+						for k := len(stack) - 1; k >= 0; k-- {
+							if f := fieldOfSelector(pk, stack[k].X); f != nil && c.fieldShrinkers()[f][callee] {
+								out = append(out, &RangeRemoval{Pk: pk, Fd: fd, Range: stack[k], X: ExprStr(stack[k].X), Via: call, Stmt: s})
+								break
+							}
+						}
+					}
+				}
+				return true
 			case *ast.AssignStmt:
 				if s.Tok != token.ASSIGN || len(s.Lhs) != len(s.Rhs) {
 					return true
@@ -148,6 +163,22 @@ func R5RangeMut(c *Ctx, only func(fn string) bool, floor int) {
 		if only != nil && !only(fn) {
 			continue
 		}
+		if rr.Via != nil {
+			cont, ok := c.loopContinues(rr.Pk, rr.Fd, rr.Range, rr.Stmt)
+			construct := "range " + rr.X + " { " + ExprStr(rr.Via.Fun) + "(…) shrinks it }"
+			if !ok {
+				c.R.Und(rule, fn, construct, c.pos(rr.Via.Pos()), "could not locate loop head / call in the CFG")
+				continue
+			}
+			if cont {
+				c.R.Bad(rule, fn, construct, c.pos(rr.Via.Pos()),
+					"the callee removes an element from the very slice field this loop ranges over and the loop goes on: range evaluated the slice once, so every other element is skipped (or a stale tail element is visited)",
+					"range head at "+c.pos(rr.Range.Pos()), "call at "+c.pos(rr.Via.Pos()))
+			} else {
+				c.R.Ok(rule, fn, construct, c.pos(rr.Via.Pos()), "every CFG path after the call leaves the loop", true)
+			}
+			continue
+		}
 		cont, ok := c.loopContinues(rr.Pk, rr.Fd, rr.Range, rr.Assign)
 		construct := "range " + rr.X + " { " + rr.X + " = " + ExprStr(rr.Assign.Rhs[0]) + " }"
 		if !ok {
@@ -189,4 +220,70 @@ func blockInLoop(b *cfg.Block, loop ast.Stmt) bool {
 		return true
 	}
 	return true
+}
+
+// fieldOfSelector: the struct field object a selector expression ends in.
+func fieldOfSelector(pk *packages.Package, e ast.Expr) *types.Var {
+	sel, ok := ast.Unparen(e).(*ast.SelectorExpr)
+	if !ok {
+		return nil
+	}
+	if s := pk.TypesInfo.Selections[sel]; s != nil && s.Kind() == types.FieldVal {
+		if v, ok := s.Obj().(*types.Var); ok {
+			return v
+		}
+	}
+	return nil
+}
+
+// fieldShrinkers: for each slice-typed struct field, the module functions that may remove elements from it
+// (directly by `x.f = append(x.f[:i], …)` / `x.f = x.f[a:b]`, or through static calls).
+func (c *Ctx) fieldShrinkers() map[*types.Var]map[*types.Func]bool {
+	if c.shrinkers != nil {
+		return c.shrinkers
+	}
+	out := map[*types.Var]map[*types.Func]bool{}
+	calls := map[*types.Func][]*types.Func{}
+	c.EachFuncDecl(NonYaotl, func(pk *packages.Package, fd *ast.FuncDecl) {
+		self, _ := pk.TypesInfo.Defs[fd.Name].(*types.Func)
+		if self == nil {
+			return
+		}
+		ast.Inspect(fd.Body, func(n ast.Node) bool {
+			switch x := n.(type) {
+			case *ast.AssignStmt:
+				if x.Tok == token.ASSIGN && len(x.Lhs) == len(x.Rhs) {
+					for i, l := range x.Lhs {
+						if f := fieldOfSelector(pk, l); f != nil && shrinkOf(pk, x.Rhs[i], ExprStr(l)) {
+							if out[f] == nil {
+								out[f] = map[*types.Func]bool{}
+							}
+							out[f][self] = true
+						}
+					}
+				}
+			case *ast.CallExpr:
+				if callee := Callee(pk.TypesInfo, x); callee != nil && callee.Pkg() != nil && c.P.InModule(callee.Pkg().Path()) {
+					calls[self] = append(calls[self], callee)
+				}
+			}
+			return true
+		})
+	})
+	for changed := true; changed; {
+		changed = false
+		for caller, cs := range calls {
+			for _, callee := range cs {
+				for f, set := range out {
+					if set[callee] && !set[caller] {
+						set[caller] = true
+						changed = true
+					}
+					_ = f
+				}
+			}
+		}
+	}
+	c.shrinkers = out
+	return out
 }
